@@ -21,7 +21,8 @@ UNDECIDED_CLASSES = ("unwind", "unsupported_construct", "missing_definition", "r
 
 class Harness:
     def __init__(self, name, obligation, label, desc, crate="scylla", carries=True, canary=False,
-                 tier="quick", bound=None, solver=None, timeout=None, functions=(), twin=False, search_only=False):
+                 tier="quick", bound=None, solver=None, timeout=None, functions=(), twin=False, search_only=False,
+                 needs_cover=False):
         self.name = name              # bare function name of the harness (unique, prefixed cNN_)
         self.obligation = obligation  # obligation id, e.g. C11.shard_of.contract
         self.label = label            # PROVED-C | BOUNDED
@@ -35,6 +36,7 @@ class Harness:
         self.timeout = timeout
         self.functions = functions    # functions of /repo under contract in this harness
         self.search_only = search_only  # counterexample search for a contract Verus proves: run only when Verus fails; a time-out is not a verdict
+        self.needs_cover = needs_cover  # vacuity guard: at least one kani::cover! of the harness must be SATISFIED
         self.twin = twin              # bounded twin of a Verus contract: runs when Verus cannot decide / reports a violation, and in thorough
 
 
@@ -46,7 +48,7 @@ def parse_result_file(path):
         return None
     checks = []
     for m in re.finditer(
-            r"Check (\d+): (\S+)\n\s*- Status: (\w+)\n\s*- Description: \"(.*?)\"\n(?:\s*- Location: (.*?)\n)?",
+            r"Check (\d+): ([^\n]+)\n\s*- Status: (\w+)\n\s*- Description: \"(.*?)\"\n(?:\s*- Location: (.*?)\n)?",
             txt, re.S):
         checks.append({"n": int(m.group(1)), "id": m.group(2), "status": m.group(3),
                        "description": m.group(4), "location": (m.group(5) or "").strip()})
@@ -98,12 +100,14 @@ def classify(h, res):
         return "undecided", "undetermined checks", undet
     if unsat_cover:
         return "undecided", "vacuity guard: cover not satisfiable: " + unsat_cover[0]["description"], unsat_cover
+    if h.needs_cover and not any(c["status"] == "SATISFIED" for c in checks):
+        return "undecided", "vacuity guard: no cover statement of the harness is satisfied (the checked site is not reached)", []
     if banner.startswith("SUCCESSFUL"):
         return "discharged", "all checks passed", []
     return "undecided", "banner: " + banner, []
 
 
-def run_property(prop, tree, harnesses, jobs, timeout_s, mem_gb=52, extra_args=(), solver=None):
+def run_property(prop, tree, harnesses, jobs, timeout_s, mem_gb=36, extra_args=(), solver=None):
     """Compile + verify `harnesses` (same crate) -> {harness name: parsed result or None}, build log."""
     crate = harnesses[0].crate
     outdir = os.path.join(KANI_TARGET, "result_output_dir")
